@@ -979,154 +979,543 @@ pub fn brotli_store(data: &[u8]) -> Vec<u8> {
     w.buf
 }
 
+/// One Huffman code of the reconstruction data (with the sentinel symbol 256 already added).
+#[derive(Clone, Debug)]
+pub struct JbrdHuff {
+    pub is_ac: bool,
+    pub id: u8,
+    pub is_last: bool,
+    pub counts: [u32; 17],
+    pub values: Vec<u32>,
+}
+
+#[derive(Clone, Debug)]
+pub struct JbrdScan {
+    pub ss: u8,
+    pub se: u8,
+    pub al: u8,
+    pub ah: u8,
+    /// `(comp_idx, ac_tbl_idx, dc_tbl_idx)`
+    pub comps: Vec<(u8, u8, u8)>,
+    pub last_needed_pass: u32,
+    pub reset_points: Vec<u32>,
+    /// `(block index, number of runs)`
+    pub extra_zero_runs: Vec<(u32, u32)>,
+}
+
+/// The fields of the `jbrd` header, one to one with what `JpegBitstreamHeader::parse` reads.
+/// `serialize` writes as many per-marker entries as the marker list calls for (missing ones are
+/// made up, surplus ones dropped), so every value of this type is a parseable header.
+#[derive(Clone, Debug)]
+pub struct JbrdFields {
+    pub is_gray: bool,
+    /// marker bytes `0xc0..=0xff`, the last one `0xd9`
+    pub markers: Vec<u8>,
+    /// `(type, length)`
+    pub app: Vec<(u32, u32)>,
+    pub com_lengths: Vec<u32>,
+    /// `(precision, index, is_last)`, 1..=4 of them
+    pub quant: Vec<(u8, u8, bool)>,
+    /// 0: one component, 1: ids 1 2 3, 2: ids R G B, 3: `comp_ids`
+    pub comp_type: u8,
+    pub comp_ids: Vec<u8>,
+    pub comp_q: Vec<u8>,
+    pub huff: Vec<JbrdHuff>,
+    pub scans: Vec<JbrdScan>,
+    pub restart_interval: u16,
+    pub intermarker_lengths: Vec<u32>,
+    pub tail_len: u32,
+    pub padding: Option<Vec<u8>>,
+    /// what follows the header, before Brotli
+    pub data: Vec<u8>,
+}
+
+impl JbrdFields {
+    pub fn from_spec(spec: &JpegSpec) -> Self {
+        let tables = spec.huff_tables();
+        let jpeg = write_jpeg_ex(spec);
+        let mut markers: Vec<u8> = Vec::new();
+        let mut app = Vec::new();
+        let mut com_lengths = Vec::new();
+        let mut data = Vec::new();
+        if spec.jfif {
+            // generic APPn: marker byte, length and payload live in the data section
+            markers.push(0xe0);
+            app.push((0, (1 + 2 + JFIF_PAYLOAD.len()) as u32));
+            data.push(0xe0);
+            data.extend_from_slice(&((2 + JFIF_PAYLOAD.len()) as u16).to_be_bytes());
+            data.extend_from_slice(&JFIF_PAYLOAD);
+        }
+        if let Some(exif) = &spec.exif_app1 {
+            // Exif APP1: payload comes from the Exif box
+            markers.push(0xe1);
+            app.push((2, (3 + 6 + exif.len()) as u32));
+        }
+        if let Some(com) = &spec.comment {
+            markers.push(0xfe);
+            com_lengths.push((2 + com.len()) as u32);
+            data.extend_from_slice(&((2 + com.len()) as u16).to_be_bytes());
+            data.extend_from_slice(com);
+        }
+        markers.extend_from_slice(&[0xdb, if spec.progressive { 0xc2 } else { 0xc0 }]);
+        for _ in 0..if spec.dht_split { tables.len() } else { 1 } {
+            markers.push(0xc4);
+        }
+        if spec.restart_interval != 0 {
+            markers.push(0xdd);
+        }
+        for _ in &spec.scans {
+            markers.push(0xda);
+        }
+        markers.push(0xd9);
+
+        let huff = tables
+            .iter()
+            .enumerate()
+            .map(|(i, t)| {
+                // counts[0..17] by code length, with the sentinel symbol 256 added at the longest length
+                let mut counts = [0u32; 17];
+                for l in 1..=16 {
+                    counts[l] = t.counts[l - 1] as u32;
+                }
+                let longest = (1..=16).rev().find(|&l| counts[l] != 0).unwrap();
+                counts[longest] += 1;
+                let mut values: Vec<u32> = t.values.iter().map(|&v| v as u32).collect();
+                values.push(256);
+                JbrdHuff { is_ac: t.is_ac, id: t.id, is_last: i == 3 || spec.dht_split, counts, values }
+            })
+            .collect();
+        let no_ezr = Vec::new();
+        let scans = spec
+            .scans
+            .iter()
+            .enumerate()
+            .map(|(scan_idx, comps)| {
+                let (ss, se, ah, al) = spec.scan_param(scan_idx);
+                JbrdScan {
+                    ss,
+                    se,
+                    al,
+                    ah,
+                    comps: comps.iter().map(|&c| (c as u8, (c != 0) as u8, (c != 0) as u8)).collect(),
+                    last_needed_pass: 0,
+                    reset_points: jpeg.reset_points[scan_idx].clone(),
+                    extra_zero_runs: spec.extra_zero_runs.get(scan_idx).unwrap_or(&no_ezr).clone(),
+                }
+            })
+            .collect();
+        Self {
+            is_gray: false,
+            markers,
+            app,
+            com_lengths,
+            quant: vec![(0, 0, false), (0, 1, false), (0, 2, true)],
+            comp_type: 1,
+            comp_ids: vec![1, 2, 3],
+            comp_q: vec![0, 1, 2],
+            huff,
+            scans,
+            restart_interval: spec.restart_interval,
+            intermarker_lengths: Vec::new(),
+            tail_len: 0,
+            padding: spec.padding.clone(),
+            data,
+        }
+    }
+
+    pub fn serialize(&self) -> Vec<u8> {
+        let mut w = BitW::default();
+        w.put(self.is_gray as u64, 1);
+        assert_eq!(self.markers.last(), Some(&0xd9));
+        assert!(self.markers[..self.markers.len() - 1].iter().all(|&m| m != 0xd9));
+        for &m in &self.markers {
+            assert!(m >= 0xc0);
+            w.put((m - 0xc0) as u64, 6);
+        }
+        let count = |f: &dyn Fn(u8) -> bool| self.markers.iter().filter(|&&m| f(m)).count();
+        let n_app = count(&|m| (0xe0..=0xef).contains(&m));
+        let n_com = count(&|m| m == 0xfe);
+        let n_scans = count(&|m| m == 0xda);
+        let n_inter = count(&|m| m == 0xff);
+        let has_dri = count(&|m| m == 0xdd) > 0;
+
+        for i in 0..n_app {
+            let (ty, len) = self.app.get(i).copied().unwrap_or((0, 3));
+            w.u32([(0, 0), (1, 0), (2, 1), (4, 2)], ty.min(7));
+            w.put((len.clamp(1, 65536) - 1) as u64, 16);
+        }
+        for i in 0..n_com {
+            let len = self.com_lengths.get(i).copied().unwrap_or(2);
+            w.put((len.clamp(1, 65536) - 1) as u64, 16);
+        }
+        assert!((1..=4).contains(&self.quant.len()));
+        w.put((self.quant.len() - 1) as u64, 2);
+        for &(precision, index, is_last) in &self.quant {
+            w.put(precision as u64 & 1, 1);
+            w.put(index as u64 & 3, 2);
+            w.put(is_last as u64, 1);
+        }
+        w.put(self.comp_type as u64 & 3, 2);
+        let ncomp = match self.comp_type & 3 {
+            0 => 1,
+            1 | 2 => 3,
+            _ => {
+                let n = self.comp_ids.len().clamp(1, 4);
+                w.put((n - 1) as u64, 2);
+                for i in 0..n {
+                    w.put(self.comp_ids[i] as u64, 8);
+                }
+                n
+            }
+        };
+        for i in 0..ncomp {
+            w.put(self.comp_q.get(i).copied().unwrap_or(0) as u64 & 3, 2);
+        }
+
+        w.u32([(4, 0), (2, 3), (10, 4), (26, 6)], self.huff.len() as u32);
+        for h in &self.huff {
+            w.put(h.is_ac as u64, 1);
+            w.put(h.id as u64 & 3, 2);
+            w.put(h.is_last as u64, 1);
+            for &c in &h.counts {
+                w.u32([(0, 0), (1, 0), (2, 3), (0, 8)], c.min(255));
+            }
+            // the parser reads as many values as the counts add up to
+            let total: u32 = h.counts.iter().map(|&c| c.min(255)).sum();
+            for i in 0..total as usize {
+                let v = h.values.get(i).copied().unwrap_or(0);
+                w.u32([(0, 2), (4, 2), (8, 4), (1, 8)], v.min(256));
+            }
+        }
+
+        for i in 0..n_scans {
+            let dflt = JbrdScan { ss: 0, se: 63, al: 0, ah: 0, comps: vec![(0, 0, 0)], last_needed_pass: 0, reset_points: Vec::new(), extra_zero_runs: Vec::new() };
+            let sc = self.scans.get(i).unwrap_or(&dflt);
+            let n = sc.comps.len().clamp(1, 4);
+            w.put((n - 1) as u64, 2);
+            w.put(sc.ss as u64 & 63, 6);
+            w.put(sc.se as u64 & 63, 6);
+            w.put(sc.al as u64 & 15, 4);
+            w.put(sc.ah as u64 & 15, 4);
+            for j in 0..n {
+                let (c, ac, dc) = sc.comps[j];
+                w.put(c as u64 & 3, 2);
+                w.put(ac as u64 & 3, 2);
+                w.put(dc as u64 & 3, 2);
+            }
+            w.u32([(0, 0), (1, 0), (2, 0), (3, 3)], sc.last_needed_pass.min(10));
+        }
+        if has_dri {
+            w.put(self.restart_interval as u64, 16);
+        }
+        let cnt = [(0, 0), (1, 2), (4, 4), (20, 16)];
+        let pos = [(0, 0), (1, 3), (9, 5), (41, 28)];
+        for i in 0..n_scans {
+            let (resets, ezr) = match self.scans.get(i) {
+                Some(sc) => (sc.reset_points.clone(), sc.extra_zero_runs.clone()),
+                None => (Vec::new(), Vec::new()),
+            };
+            w.u32(cnt, resets.len() as u32);
+            let mut last: Option<u32> = None;
+            for &idx in &resets {
+                let delta = match last {
+                    None => idx,
+                    Some(l) => idx.saturating_sub(l + 1),
+                };
+                w.u32(pos, delta);
+                last = Some(idx);
+            }
+            w.u32(cnt, ezr.len() as u32);
+            let mut last: Option<u32> = None;
+            for &(idx, n) in &ezr {
+                w.u32([(1, 0), (2, 2), (5, 4), (20, 8)], n.clamp(1, 275));
+                let delta = match last {
+                    None => idx,
+                    Some(l) => idx.saturating_sub(l + 1),
+                };
+                w.u32(pos, delta);
+                last = Some(idx);
+            }
+        }
+        for i in 0..n_inter {
+            w.put(self.intermarker_lengths.get(i).copied().unwrap_or(0) as u64 & 0xffff, 16);
+        }
+        w.u32([(0, 0), (1, 8), (257, 16), (65793, 22)], self.tail_len);
+        match &self.padding {
+            None => w.put(0, 1),
+            Some(bits) => {
+                w.put(1, 1);
+                w.put(bits.len() as u64, 24);
+                for &b in bits {
+                    w.put(b as u64, 1);
+                }
+            }
+        }
+        w.align();
+        let mut out = w.buf;
+        out.extend_from_slice(&brotli_store(&self.data));
+        out
+    }
+}
+
 /// Builds the contents of the `jbrd` box for `spec`.
 pub fn write_jbrd(spec: &JpegSpec) -> Vec<u8> {
-    let tables = spec.huff_tables();
-    let jpeg = write_jpeg_ex(spec);
-    let mut w = BitW::default();
-    w.put(0, 1); // is_gray
+    JbrdFields::from_spec(spec).serialize()
+}
 
-    let mut markers: Vec<u8> = Vec::new();
-    if spec.jfif {
-        markers.push(0xe0);
-    }
-    if spec.exif_app1.is_some() {
-        markers.push(0xe1);
-    }
-    if spec.comment.is_some() {
-        markers.push(0xfe);
-    }
-    markers.extend_from_slice(&[0xdb, if spec.progressive { 0xc2 } else { 0xc0 }]);
-    for _ in 0..if spec.dht_split { tables.len() } else { 1 } {
-        markers.push(0xc4);
-    }
-    if spec.restart_interval != 0 {
-        markers.push(0xdd);
-    }
-    for _ in &spec.scans {
-        markers.push(0xda);
-    }
-    markers.push(0xd9);
-    for &m in &markers {
-        w.put((m - 0xc0) as u64, 6);
-    }
-
-    let mut data = Vec::new();
-    let app_ty = [(0, 0), (1, 0), (2, 1), (4, 2)];
-    if spec.jfif {
-        // generic APPn: marker byte, length and payload live in the data section
-        w.u32(app_ty, 0);
-        w.put((1 + 2 + JFIF_PAYLOAD.len() - 1) as u64, 16);
-        data.push(0xe0);
-        data.extend_from_slice(&((2 + JFIF_PAYLOAD.len()) as u16).to_be_bytes());
-        data.extend_from_slice(&JFIF_PAYLOAD);
-    }
-    if let Some(exif) = &spec.exif_app1 {
-        // Exif APP1: payload comes from the Exif box
-        w.u32(app_ty, 2);
-        w.put((3 + 6 + exif.len() - 1) as u64, 16);
-    }
-    if let Some(com) = &spec.comment {
-        w.put((2 + com.len() - 1) as u64, 16);
-        data.extend_from_slice(&((2 + com.len()) as u16).to_be_bytes());
-        data.extend_from_slice(com);
-    }
-
-    w.put(2, 2); // three quant tables
-    for i in 0..3 {
-        w.put(0, 1); // 8 bit
-        w.put(i, 2);
-        w.put((i == 2) as u64, 1); // one DQT segment
-    }
-    w.put(1, 2); // component ids 1, 2, 3
-    for i in 0..3 {
-        w.put(i, 2);
-    }
-
-    w.u32([(4, 0), (2, 3), (10, 4), (26, 6)], 4);
-    for (i, t) in tables.iter().enumerate() {
-        w.put(t.is_ac as u64, 1);
-        w.put(t.id as u64, 2);
-        w.put((i == 3 || spec.dht_split) as u64, 1); // last table of its DHT segment
-        // counts[0..17] by code length, with the sentinel symbol 256 added at the longest length
-        let mut counts = [0u32; 17];
-        for l in 1..=16 {
-            counts[l] = t.counts[l - 1] as u32;
-        }
-        let longest = (1..=16).rev().find(|&l| counts[l] != 0).unwrap();
-        counts[longest] += 1;
-        for &c in &counts {
-            w.u32([(0, 0), (1, 0), (2, 3), (0, 8)], c);
-        }
-        for &v in t.values.iter() {
-            w.u32([(0, 2), (4, 2), (8, 4), (1, 8)], v as u32);
-        }
-        w.u32([(0, 2), (4, 2), (8, 4), (1, 8)], 256);
-    }
-
-    for (scan_idx, comps) in spec.scans.iter().enumerate() {
-        let (ss, se, ah, al) = spec.scan_param(scan_idx);
-        w.put((comps.len() - 1) as u64, 2);
-        w.put(ss as u64, 6);
-        w.put(se as u64, 6);
-        w.put(al as u64, 4);
-        w.put(ah as u64, 4);
-        for &c in comps {
-            let tbl = if c == 0 { 0 } else { 1 };
-            w.put(c as u64, 2);
-            w.put(tbl, 2); // ac
-            w.put(tbl, 2); // dc
-        }
-        w.put(0, 2); // last_needed_pass
-    }
-    if spec.restart_interval != 0 {
-        w.put(spec.restart_interval as u64, 16);
-    }
-    let cnt = [(0, 0), (1, 2), (4, 4), (20, 16)];
-    let pos = [(0, 0), (1, 3), (9, 5), (41, 28)];
-    let no_ezr = Vec::new();
-    for scan_idx in 0..spec.scans.len() {
-        let ezr = spec.extra_zero_runs.get(scan_idx).unwrap_or(&no_ezr);
-        let resets = &jpeg.reset_points[scan_idx];
-        w.u32(cnt, resets.len() as u32);
-        let mut last: Option<u32> = None;
-        for &idx in resets {
-            let delta = match last {
-                None => idx,
-                Some(l) => idx - l - 1,
-            };
-            w.u32(pos, delta);
-            last = Some(idx);
-        }
-        w.u32(cnt, ezr.len() as u32);
-        let mut last: Option<u32> = None;
-        for &(idx, n) in ezr {
-            w.u32([(1, 0), (2, 2), (5, 4), (20, 8)], n);
-            let delta = match last {
-                None => idx,
-                Some(l) => idx - l - 1,
-            };
-            w.u32(pos, delta);
-            last = Some(idx);
-        }
-    }
-    // no inter-marker data
-    w.u32([(0, 0), (1, 8), (257, 16), (65793, 22)], 0); // tail data
-    match &spec.padding {
-        None => w.put(0, 1),
-        Some(bits) => {
-            w.put(1, 1);
-            w.put(bits.len() as u64, 24);
-            for &b in bits {
-                w.put(b as u64, 1);
+/// Seeded structural damage to a truthful header: every result still parses as a `jbrd` header
+/// (the lists follow the marker list), but what it says no longer fits the image or itself.
+pub fn hostile(f: &mut JbrdFields, seed: u64) -> Vec<&'static str> {
+    let mut s = seed.wrapping_mul(0x9e3779b97f4a7c15) | 1;
+    let mut next = move || {
+        s ^= s << 13;
+        s ^= s >> 7;
+        s ^= s << 17;
+        s
+    };
+    let mut done = Vec::new();
+    let n_mut = 1 + next() % 3;
+    for _ in 0..n_mut {
+        let body = f.markers.len() - 1; // EOI stays last
+        match next() % 22 {
+            0 => {
+                // a marker once more, somewhere
+                let pool = [0xdbu8, 0xc4, 0xda, 0xdd, 0xc0, 0xc2, 0xc1, 0xc9, 0xca, 0xe0, 0xe1, 0xe2, 0xef, 0xfe, 0xff, 0xd0, 0xd7];
+                let m = pool[(next() % pool.len() as u64) as usize];
+                let at = (next() % (body as u64 + 1)) as usize;
+                f.markers.insert(at, m);
+                done.push("marker-inserted");
+            }
+            1 => {
+                // a marker the reconstruction does not know
+                let pool = [0xc3u8, 0xc5, 0xc8, 0xcc, 0xd8, 0xdc, 0xde, 0xf0, 0xfd];
+                let m = pool[(next() % pool.len() as u64) as usize];
+                let at = (next() % (body as u64 + 1)) as usize;
+                f.markers.insert(at, m);
+                done.push("marker-unknown");
+            }
+            2 => {
+                if body > 0 {
+                    let at = (next() % body as u64) as usize;
+                    f.markers.remove(at);
+                    done.push("marker-removed");
+                }
+            }
+            3 => {
+                if body > 1 {
+                    let a = (next() % body as u64) as usize;
+                    let b = (next() % body as u64) as usize;
+                    f.markers.swap(a, b);
+                    done.push("markers-swapped");
+                }
+            }
+            4 => {
+                for q in f.quant.iter_mut() {
+                    q.2 = next() % 2 == 0;
+                }
+                done.push("quant-is-last");
+            }
+            5 => {
+                let i = (next() % f.quant.len() as u64) as usize;
+                f.quant[i].1 = (next() % 4) as u8;
+                f.quant[i].0 = (next() % 2) as u8;
+                done.push("quant-index-precision");
+            }
+            6 => {
+                if next() % 2 == 0 && f.quant.len() > 1 {
+                    f.quant.pop();
+                } else if f.quant.len() < 4 {
+                    f.quant.push(((next() % 2) as u8, (next() % 4) as u8, next() % 2 == 0));
+                }
+                done.push("quant-count");
+            }
+            7 => {
+                f.comp_type = (next() % 4) as u8;
+                f.comp_ids = (0..1 + next() % 4).map(|_| next() as u8).collect();
+                f.is_gray = next() % 2 == 0;
+                done.push("components");
+            }
+            8 => {
+                for q in f.comp_q.iter_mut() {
+                    *q = (next() % 4) as u8;
+                }
+                done.push("component-quant-index");
+            }
+            9 => {
+                for h in f.huff.iter_mut() {
+                    h.is_last = next() % 3 == 0;
+                }
+                done.push("huffman-is-last");
+            }
+            10 => {
+                if !f.huff.is_empty() {
+                    let i = (next() % f.huff.len() as u64) as usize;
+                    match next() % 4 {
+                        0 => f.huff[i].id = (next() % 4) as u8,
+                        1 => f.huff[i].is_ac = !f.huff[i].is_ac,
+                        2 => {
+                            f.huff.remove(i);
+                        }
+                        _ => {
+                            let h = f.huff[i].clone();
+                            f.huff.push(h);
+                        }
+                    }
+                    done.push("huffman-slot");
+                }
+            }
+            11 => {
+                if !f.huff.is_empty() {
+                    let i = (next() % f.huff.len() as u64) as usize;
+                    let h = &mut f.huff[i];
+                    match next() % 4 {
+                        0 => {
+                            // over-subscribed lengths
+                            h.counts[1 + (next() % 3) as usize] += 1 + (next() % 200) as u32;
+                        }
+                        1 => {
+                            // the sentinel somewhere else / twice
+                            let at = (next() % h.values.len() as u64) as usize;
+                            h.values[at] = 256;
+                        }
+                        2 => {
+                            // a symbol twice
+                            let at = (next() % h.values.len() as u64) as usize;
+                            h.values[at] = h.values[0];
+                        }
+                        _ => {
+                            h.counts = [0; 17];
+                            h.counts[16] = 255;
+                            h.counts[15] = 2;
+                        }
+                    }
+                    done.push("huffman-code");
+                }
+            }
+            12 => {
+                if !f.scans.is_empty() {
+                    let i = (next() % f.scans.len() as u64) as usize;
+                    let sc = &mut f.scans[i];
+                    match next() % 5 {
+                        0 => sc.comps = (0..1 + next() % 4).map(|_| ((next() % 4) as u8, (next() % 4) as u8, (next() % 4) as u8)).collect(),
+                        1 => {
+                            for c in sc.comps.iter_mut() {
+                                c.1 = (next() % 4) as u8;
+                                c.2 = (next() % 4) as u8;
+                            }
+                        }
+                        2 => {
+                            for c in sc.comps.iter_mut() {
+                                c.0 = (next() % 4) as u8;
+                            }
+                        }
+                        3 => {
+                            let c = sc.comps[0];
+                            sc.comps.push(c);
+                            sc.comps.truncate(4);
+                        }
+                        _ => sc.comps.truncate(1),
+                    }
+                    done.push("scan-components");
+                }
+            }
+            13 => {
+                if !f.scans.is_empty() {
+                    let i = (next() % f.scans.len() as u64) as usize;
+                    let sc = &mut f.scans[i];
+                    sc.ss = (next() % 64) as u8;
+                    sc.se = (next() % 64) as u8;
+                    if next() % 2 == 0 {
+                        sc.al = (next() % 16) as u8;
+                        sc.ah = (next() % 16) as u8;
+                    }
+                    done.push("scan-band");
+                }
+            }
+            14 => {
+                if !f.scans.is_empty() {
+                    let i = (next() % f.scans.len() as u64) as usize;
+                    let sc = &mut f.scans[i];
+                    let mut at = next() % 8;
+                    sc.extra_zero_runs = (0..1 + next() % 6)
+                        .map(|_| {
+                            at += 1 + next() % 4;
+                            (at as u32, 1 + (next() % 275) as u32)
+                        })
+                        .collect();
+                    done.push("extra-zero-runs");
+                }
+            }
+            15 => {
+                if !f.scans.is_empty() {
+                    let i = (next() % f.scans.len() as u64) as usize;
+                    let mut at = next() % 4;
+                    f.scans[i].reset_points = (0..1 + next() % 20)
+                        .map(|_| {
+                            at += 1 + next() % 3;
+                            at as u32
+                        })
+                        .collect();
+                    if next() % 4 == 0 {
+                        f.scans[i].reset_points.push(3 << 26);
+                    }
+                    done.push("reset-points");
+                }
+            }
+            16 => {
+                f.restart_interval = [0u16, 1, 2, 3, 65535, 7][(next() % 6) as usize];
+                if !f.markers.contains(&0xdd) {
+                    let at = (next() % (body as u64 + 1)) as usize;
+                    f.markers.insert(at, 0xdd);
+                }
+                done.push("restart-interval");
+            }
+            17 => {
+                if !f.app.is_empty() {
+                    let i = (next() % f.app.len() as u64) as usize;
+                    match next() % 3 {
+                        0 => f.app[i].0 = (next() % 4) as u32,
+                        1 => f.app[i].1 = 1 + (next() % 40) as u32,
+                        _ => f.app[i].1 = 65536 - (next() % 3) as u32,
+                    }
+                    done.push("app-marker");
+                } else {
+                    f.markers.insert(0, 0xe2);
+                    f.app.push(((next() % 4) as u32, 1 + (next() % 600) as u32));
+                    done.push("app-marker-added");
+                }
+            }
+            18 => {
+                match next() % 3 {
+                    0 => f.data.truncate(f.data.len() / 2),
+                    1 => f.data.extend((0..1 + next() % 300).map(|i| i as u8)),
+                    _ => f.tail_len = (next() % 70000) as u32,
+                }
+                done.push("data-length");
+            }
+            19 => {
+                match next() % 3 {
+                    0 => f.padding = Some(Vec::new()),
+                    1 => f.padding = Some((0..next() % 5).map(|_| (next() & 1) as u8).collect()),
+                    _ => f.padding = None,
+                }
+                done.push("padding-bits");
+            }
+            20 => {
+                f.intermarker_lengths = (0..4).map(|_| (next() % 300) as u32).collect();
+                let at = (next() % (body as u64 + 1)) as usize;
+                f.markers.insert(at, 0xff);
+                done.push("intermarker-data");
+            }
+            _ => {
+                f.com_lengths = (0..3).map(|_| 1 + (next() % 100) as u32).collect();
+                let at = (next() % (body as u64 + 1)) as usize;
+                f.markers.insert(at, 0xfe);
+                done.push("comment-added");
             }
         }
     }
-    w.align();
-
-    let mut out = w.buf;
-    out.extend_from_slice(&brotli_store(&data));
-    out
+    done
 }
 
 fn push_box(out: &mut Vec<u8>, ty: &[u8; 4], payload: &[u8]) {
@@ -1141,10 +1530,20 @@ pub fn write_container(
     exif_box: Option<&[u8]>,
     xml_box: Option<&[u8]>,
 ) -> Vec<u8> {
+    write_container_with(spec, &write_jbrd(spec), exif_box, xml_box)
+}
+
+/// The same with the contents of the `jbrd` box given.
+pub fn write_container_with(
+    spec: &JpegSpec,
+    jbrd: &[u8],
+    exif_box: Option<&[u8]>,
+    xml_box: Option<&[u8]>,
+) -> Vec<u8> {
     let mut out = Vec::new();
     out.extend_from_slice(&[0, 0, 0, 0x0c, b'J', b'X', b'L', b' ', 0x0d, 0x0a, 0x87, 0x0a]);
     push_box(&mut out, b"ftyp", b"jxl \0\0\0\0jxl ");
-    push_box(&mut out, b"jbrd", &write_jbrd(spec));
+    push_box(&mut out, b"jbrd", jbrd);
     if let Some(tiff) = exif_box {
         let mut payload = vec![0, 0, 0, 0]; // offset of the TIFF header
         payload.extend_from_slice(tiff);
